@@ -16,13 +16,13 @@ from .. import gen as G
 PID = 'C13'
 RULE = ('cases = random sequences (<= 6 quick / <= 10 thorough steps) over a pool of MatrixArrays of rank 1-5, length 1-64 with random '
         'space flags; operators + - * / (out-of-place and in-place) with operand kinds MatrixArray / same object / length-1 NonSpatial '
-        'MatrixArray / scalar / ndarray, dot, @, @=, invert, get_copy, pair get/set by type names incl. unknown names, IdentityMatrixArray independence histories, plus '
+        'MatrixArray / scalar / ndarray, dot, @, @=, invert, get_copy, pair get/set by type names incl. unknown names, IdentityMatrixArray independence histories, caller-supplied data of dtype int64/int32 and Fortran / strided / sliced layouts, length-1 left operands, plus '
         'PRISM.cost evaluations under the same contracts; non-trivial = sequence executed >= 3 contract-checked calls; '
         'distinct = distinct (rank,length,step list) digests')
 ASSUMPTIONS = ['numpy elementwise arithmetic, @ and np.linalg.inv applied matrix by matrix are the reference',
                'well-conditioned data (cond < 1e6) for inversion checks']
-MINIMA = {'quick': {'ma.__add__': 100, 'ma.__isub__': 100, 'ma.dot': 100, 'ma.invert': 50, 'ma.__setitem__': 100, 'space_mix_refused': 50, 'inplace_vs_outofplace': 100, 'identity.case': 40},
-          'thorough': {'ma.__add__': 3000, 'ma.__isub__': 3000, 'ma.dot': 3000, 'ma.invert': 1000, 'ma.__setitem__': 3000, 'space_mix_refused': 1000, 'inplace_vs_outofplace': 3000, 'identity.case': 2000}}
+MINIMA = {'quick': {'ma.__add__': 100, 'ma.__isub__': 100, 'ma.dot': 100, 'ma.invert': 50, 'ma.__setitem__': 100, 'space_mix_refused': 50, 'inplace_vs_outofplace': 100, 'identity.case': 40, 'hostile_data.case': 40},
+          'thorough': {'ma.__add__': 3000, 'ma.__isub__': 3000, 'ma.dot': 3000, 'ma.invert': 1000, 'ma.__setitem__': 3000, 'space_mix_refused': 1000, 'inplace_vs_outofplace': 3000, 'identity.case': 2000, 'hostile_data.case': 2000}}
 SHARDS = {'quick': 4, 'thorough': 16}
 TIME_BUDGET = {'quick': 40, 'thorough': 240}
 
@@ -39,6 +39,9 @@ def cases(ctx):
     n = ctx.budget(1600, 100000)
     maxsteps = 10 if ctx.thorough() else 6
     for it in range(n):
+        if it % 20 == 3:
+            yield {'kind': 'hostile_data', 'rank': int(rng.integers(1, 6)), 'L': int(rng.choice([1, 2, 5, 16, 33])), 'seed': int(rng.integers(0, 2 ** 31))}
+            continue
         if it % 20 == 7:
             yield {'kind': 'identity', 'rank': int(rng.integers(1, 6)), 'L': int(rng.choice([1, 2, 5, 16, 64])), 'seed': int(rng.integers(0, 2 ** 31))}
             continue
@@ -139,9 +142,72 @@ def run_identity(ctx, case):
     ctx.nontrivial(['identity', n, L, steps])
 
 
+def run_hostile_data(ctx, case):
+    """caller-supplied data of unusual dtype / memory layout, and a length-1 LEFT operand (the shape of the density arrays):
+    every call still goes through the contracts of ma_contracts"""
+    rng = np.random.default_rng(case['seed'])
+    n, L = int(case['rank']), int(case['L'])
+    types = list('ABCDE')[:n]
+    sp = SPACES[int(rng.integers(0, 3))]
+    ctx.hook('hostile_data.case')
+    base = wellcond(rng, L, n)
+    ints = np.round(base * 3).astype(np.int64)
+    for l in range(L):
+        ints[l] += np.eye(n, dtype=np.int64) * int(np.sign(ints[l, 0, 0]) or 1) * 4
+    layouts = {
+        'int64': ints,
+        'int32': ints.astype(np.int32),
+        'fortran': np.array(base, order='F'),
+        'transposed_build': np.array([[base[:, i, j] for j in range(n)] for i in range(n)]).T,       # (L,n,n) view with exotic strides
+        'slice_of_larger': np.concatenate([base, base], axis=1)[:, :n, :][:, :, :n] if n > 0 else base,
+        'every_second': np.repeat(base, 2, axis=0)[::2],
+    }
+    ref = {k: np.array(v, dtype=float) for k, v in layouts.items()}
+    B = mk(rng, L, n, types, sp)
+    one = MatrixArray(length=1, rank=n, data=wellcond(rng, 1, n), space=Space.NonSpatial, types=types)
+    for name, data in layouts.items():
+        A = MatrixArray(length=L, rank=n, data=data, space=sp, types=types)
+        with np.errstate(all='ignore'):
+            for op in ('__add__', '__sub__', '__mul__', '__truediv__'):
+                getattr(A, op)(B)
+                getattr(A, op)(2.5)
+                getattr(A, op)(one)
+            A.dot(B)
+            A @ B
+            tol = 1e-4 if name == 'float32' else 1e-10
+            inv = A.invert()                       # contract: per-matrix np.linalg.inv of the ORIGINAL values
+            want = np.array([np.linalg.inv(ref[name][l]) for l in range(L)])
+            if not np.allclose(np.asarray(inv.data, dtype=float), want, rtol=tol, atol=tol):
+                ctx.violation('ma:value:invert', 'invert() of a MatrixArray holding %s data differs from per-matrix np.linalg.inv by %.3g' % (name, float(np.abs(np.asarray(inv.data, dtype=float) - want).max())))
+                return
+            A2 = MatrixArray(length=L, rank=n, data=np.array(data), space=sp, types=types)
+            r2 = A2.invert(inplace=True)
+            if not np.allclose(np.asarray(r2.data, dtype=float), want, rtol=tol, atol=tol):
+                ctx.violation('ma:value:invert', 'invert(inplace=True) of a MatrixArray holding %s data differs from per-matrix np.linalg.inv by %.3g' % (name, float(np.abs(np.asarray(r2.data, dtype=float) - want).max())))
+                return
+            a, b = types[0], types[-1]
+            v = rng.normal(size=L)
+            A3 = MatrixArray(length=L, rank=n, data=np.array(data, dtype=float, order='F' if name == 'fortran' else 'C'), space=sp, types=types)
+            A3[a, b] = v
+            if not (np.array_equal(A3[a, b], v) and np.array_equal(A3[b, a], v)):
+                ctx.violation('ma:set-then-get', 'pair assignment on %s data not readable from both orders' % name)
+                return
+    # length-1 LEFT operand: result must broadcast like the per-matrix operation
+    with np.errstate(all='ignore'):
+        for op in ('__add__', '__sub__', '__mul__', '__truediv__'):
+            res = getattr(one, op)(B)
+            want = {'__add__': np.add, '__sub__': np.subtract, '__mul__': np.multiply, '__truediv__': np.true_divide}[op](np.asarray(one.data), np.asarray(B.data))
+            if np.asarray(res.data).shape != want.shape or not np.allclose(res.data, want, rtol=1e-13, atol=0, equal_nan=True):
+                ctx.violation('ma:value:%s' % op, 'length-1 MatrixArray %s full MatrixArray does not broadcast to the per-matrix result' % op)
+                return
+    ctx.nontrivial(['hostile_data', n, L, case['seed']])
+
+
 def run_case(ctx, case):
     if case['kind'] == 'cost':
         return run_cost(ctx, case)
+    if case['kind'] == 'hostile_data':
+        return run_hostile_data(ctx, case)
     if case['kind'] == 'identity':
         return run_identity(ctx, case)
     rng = np.random.default_rng(case['seed'])
